@@ -91,3 +91,42 @@ def normalised(series, timesteps):
 def time_axis(timesteps, dt):
     ts = np.array([int(t) for t in timesteps], dtype=np.int64)
     return (ts - ts[0]).astype(float) * float(dt)
+
+
+# ----------------------------------------------------------------------------- round 3: Gram-matrix formulation
+# (added for the large-size classes of C14; the functions above are unchanged)
+
+
+def _flat_pair(series):
+    """(L, E): row t of L is the value at time t laid out as a vector, row t of E the conjugate of the value at time t
+    laid out so that  L[t2] . E[t1] = sum_i A_i(t2) * conj(A_i(t1))  (tensors: trace of the matrix product, i.e. the
+    conjugated factor enters with its last two axes exchanged)."""
+    A = np.asarray(series)
+    T = A.shape[0]
+    if A.ndim not in (2, 3, 4):
+        raise ValueError("rank not supported")
+    L = A.reshape(T, -1)
+    Ec = np.conjugate(A)
+    if A.ndim == 4:
+        Ec = np.swapaxes(Ec, 2, 3)
+    return L, np.ascontiguousarray(Ec).reshape(T, -1)
+
+
+def gram_unnormalised(series, even):
+    """Same quantities as `unnormalised` (C[k], S[k]) from the T x T matrix of all frame-pair products
+    P[t2, t1] = Re sum_i A_i(t2) conj(A_i(t1)): lag k of an evenly spaced series is the mean of the k-th sub-diagonal,
+    of an unevenly spaced one the entry P[k, 0].  One matrix product instead of T^2/2 einsum calls."""
+    L, E = _flat_pair(series)
+    T = L.shape[0]
+    P = np.real(L @ E.T)
+    Pa = np.abs(L) @ np.abs(E).T
+    C = np.zeros(T)
+    S = np.zeros(T)
+    for k in range(T):
+        if even:
+            C[k] = float(np.trace(P, offset=-k)) / (T - k)
+            S[k] = float(np.trace(Pa, offset=-k)) / (T - k)
+        else:
+            C[k] = float(P[k, 0])
+            S[k] = float(Pa[k, 0])
+    return C, S
